@@ -1,3 +1,258 @@
-pub fn emit_main(_file: &str) -> ! {
-    std::process::exit(2)
+//! C16 — output bytes are a canonical function of the archive's logical content.
+
+use crate::engine::{guarded, hex, run_list, run_proptest, CaseResult, Ctx, Fail, Meta, PtCfg};
+use crate::libx::Arch;
+use crate::model::logical::{self, Gen, Logical};
+use crate::model::pick;
+use proptest::prelude::*;
+use serde::{Deserialize, Serialize};
+use serde_json::Value;
+
+#[derive(Clone, Copy, Debug, Serialize, Deserialize)]
+pub enum Detour {
+    /// add a junk id (not in the archive) with some content, remove it later
+    Junk(u16, u16),
+    /// add the wrong content for tile k first, the right one later
+    WrongFirst(u16, u16),
+    /// add tile k's content under another (junk) id as well, remove that id later
+    Alias(u16, u16),
+    /// remove tile k after adding it and add it again
+    ReAdd(u16),
+}
+
+#[derive(Clone, Debug, Serialize, Deserialize)]
+pub struct Case {
+    pub l: Logical,
+    pub seed2: u32,
+    pub detours: Vec<Detour>,
+    /// save + reopen after this fraction (x/65536) of history B's steps; None = never
+    pub reopen_at: Option<u16>,
+    pub reopen_async: bool,
+    pub asyncw: bool,
+}
+
+enum Step {
+    Add(u64, Vec<u8>),
+    Remove(u64),
+}
+
+fn junk_id(l: &Logical, sel: u16) -> u64 {
+    // an id that is not part of the archive
+    let mut id = 1_000_003u64.wrapping_mul(u64::from(sel) + 1) % crate::spec::hilbert::domain_end();
+    while l.tiles.iter().any(|(t, _)| *t == id) {
+        id += 1;
+    }
+    id
+}
+
+/// history B as a step list
+fn history_b(c: &Case) -> Vec<Step> {
+    let l = &c.l;
+    let contents = l.contents();
+    let mut steps: Vec<Step> = Vec::new();
+    let mut tail: Vec<Step> = Vec::new();
+    let order = l.insertion_order(c.seed2 | 1);
+    let wrong: Vec<(usize, usize)> = c.detours.iter().filter_map(|d| if let Detour::WrongFirst(k, w) = d { Some((pick(*k, l.tiles.len().max(1)), pick(*w, contents.len()))) } else { None }).collect();
+    for d in &c.detours {
+        match d {
+            Detour::Junk(j, cs) => {
+                let id = junk_id(l, *j);
+                steps.push(Step::Add(id, contents[pick(*cs, contents.len())].clone()));
+                tail.push(Step::Remove(id));
+            }
+            Detour::Alias(k, j) if !l.tiles.is_empty() => {
+                let (_, s) = l.tiles[pick(*k, l.tiles.len())];
+                let id = junk_id(l, j.wrapping_add(7));
+                steps.push(Step::Add(id, contents[l.pool_index(s)].clone()));
+                tail.push(Step::Remove(id));
+            }
+            _ => {}
+        }
+    }
+    for i in order {
+        let (id, s) = l.tiles[i];
+        if let Some((_, w)) = wrong.iter().find(|(k, _)| *k == i) {
+            steps.push(Step::Add(id, contents[*w].clone()));
+        }
+        steps.push(Step::Add(id, contents[l.pool_index(s)].clone()));
+        for d in &c.detours {
+            if let Detour::ReAdd(k) = d {
+                if !l.tiles.is_empty() && pick(*k, l.tiles.len()) == i {
+                    steps.push(Step::Remove(id));
+                    steps.push(Step::Add(id, contents[l.pool_index(s)].clone()));
+                }
+            }
+        }
+    }
+    // junk removals are spread: half right away, half at the end
+    let mut out = steps;
+    out.extend(tail);
+    out
+}
+
+fn run_b(c: &Case) -> Result<Vec<u8>, Fail> {
+    let steps = history_b(c);
+    let mut a = if c.asyncw { Arch::new_async() } else { Arch::new_sync() };
+    a.set_fields(&c.l.fields());
+    let cut = c.reopen_at.map(|f| pick(f, steps.len() + 1));
+    let mut reopened = false;
+    for (k, st) in steps.iter().enumerate() {
+        if Some(k) == cut {
+            let bytes = guarded("to_writer", || a.write())?.map_err(|e| Fail::new("C16/write-err", format!("{e}")))?;
+            // the handle kind decides the writer kind: keep it equal to history A's
+            a = match (c.asyncw, c.reopen_async) {
+                (true, _) => guarded("open", || Arch::open_async(bytes))?,
+                (false, _) => guarded("open", || Arch::open_sync(bytes))?,
+            }
+            .map_err(|e| Fail::new("C16/open-err", format!("{e}")))?;
+            reopened = true;
+        }
+        match st {
+            Step::Add(id, content) => a.add(*id, content.clone()).map_err(|e| Fail::new("C16/harness", format!("{e}")))?,
+            Step::Remove(id) => a.remove(*id),
+        }
+    }
+    if reopened {
+        // settings survive a reopen except that coordinates are quantised; set the original values again so
+        // that both histories end in the same logical state by construction
+        a.set_fields(&c.l.fields());
+    }
+    guarded("to_writer", || a.write())?.map_err(|e| Fail::new("C16/write-err", format!("{e}")))
+}
+
+fn first_diff(a: &[u8], b: &[u8]) -> String {
+    let at = a.iter().zip(b).position(|(x, y)| x != y).unwrap_or(a.len().min(b.len()));
+    format!("lengths {} vs {}, first difference at byte {at}", a.len(), b.len())
+}
+
+fn check(c: &Case) -> CaseResult {
+    let l = &c.l;
+    let a_bytes = super::c01::write_logical(l, c.asyncw).map_err(|f| Fail::new(f.sig.replace("C01/", "C16/"), f.msg))?;
+    // 1. a second, differently ordered history with detours / reopen
+    let b_bytes = run_b(c)?;
+    if a_bytes != b_bytes {
+        let cls = if c.reopen_at.is_some() { "reopen" } else if c.detours.is_empty() { "order" } else { "detour" };
+        fail!(format!("C16/histories-differ/{cls}"), "two histories reaching the same logical archive serialise differently: {}", first_diff(&a_bytes, &b_bytes));
+    }
+    // 2. the same history again (fresh hash-map seeds)
+    let a2 = super::c01::write_logical(l, c.asyncw).map_err(|f| Fail::new(f.sig.replace("C01/", "C16/"), f.msg))?;
+    ensure!(a2 == a_bytes, "C16/same-history-differs", "writing the same history twice gives different bytes: {}", first_diff(&a_bytes, &a2));
+    // 3. rewrite: to_writer(from_bytes(b)) == b  (same writer kind)
+    let re = {
+        let opened = guarded("open", || if c.asyncw { Arch::open_async(a_bytes.clone()) } else { Arch::open_sync(a_bytes.clone()) })?.map_err(|e| Fail::new("C16/open-err", format!("{e}")))?;
+        guarded("to_writer", || opened.write())?.map_err(|e| Fail::new("C16/write-err", format!("{e}")))?
+    };
+    if re != a_bytes {
+        let hdr_only = re.len() == a_bytes.len() && re[127..] == a_bytes[127..];
+        let cls = if hdr_only { "header" } else { "body" };
+        fail!(format!("C16/rewrite-differs/{cls}"), "writing an archive that was just read back changes the bytes: {}", first_diff(&a_bytes, &re));
+    }
+    let dup = l.has_dup();
+    let more_than_order = !c.detours.is_empty() || c.reopen_at.is_some();
+    Ok(Meta::new(l.tiles.len() >= 3 && dup && more_than_order)
+        .label(c.reopen_at.is_some(), "reopen-in-between")
+        .label(!c.detours.is_empty(), "detours")
+        .label(dup, "dup-content")
+        .label(c.asyncw, "writer-async")
+        .label(super::c01::spilled(&a_bytes), "leaf-spill")
+        .label(true, super::c01::codec_label(l.settings.internal)))
+}
+
+// ---- cross-process ---------------------------------------------------------------------
+
+#[derive(Clone, Debug, Serialize, Deserialize)]
+pub struct XCase {
+    pub l: Logical,
+    pub asyncw: bool,
+}
+
+pub fn emit_main(file: &str) -> ! {
+    let ok = (|| -> Option<()> {
+        let b = std::fs::read(file).ok()?;
+        let c: XCase = serde_json::from_slice(&b).ok()?;
+        let bytes = super::c01::write_logical(&c.l, c.asyncw).ok()?;
+        println!("{}", hex(&bytes));
+        Some(())
+    })();
+    std::process::exit(if ok.is_some() { 0 } else { 3 })
+}
+
+fn check_cross(ctx: &Ctx, c: &XCase, idx: usize) -> CaseResult {
+    let here = super::c01::write_logical(&c.l, c.asyncw).map_err(|f| Fail::new(f.sig.replace("C01/", "C16/"), f.msg))?;
+    let dir = ctx.verif_dir.join("work");
+    let _ = std::fs::create_dir_all(&dir);
+    let path = dir.join(format!("c16-x-{}-{}.json", std::process::id(), idx));
+    std::fs::write(&path, serde_json::to_vec(c).unwrap_or_default()).map_err(|e| Fail::new("C16/harness", format!("{e}")))?;
+    let exe = std::env::current_exe().map_err(|e| Fail::new("C16/harness", format!("{e}")))?;
+    let mut outs = Vec::new();
+    for _ in 0..2 {
+        let o = std::process::Command::new(&exe).arg("emit").arg(&path).output().map_err(|e| Fail::new("C16/harness", format!("spawn: {e}")))?;
+        if !o.status.success() {
+            let _ = std::fs::remove_file(&path);
+            fail!("C16/harness", "emit process failed: {:?}", o.status);
+        }
+        outs.push(String::from_utf8_lossy(&o.stdout).trim().to_string());
+    }
+    let _ = std::fs::remove_file(&path);
+    let h = hex(&here);
+    ensure!(outs[0] == outs[1], "C16/cross-process-differs", "two freshly spawned processes serialise the same archive differently");
+    ensure!(outs[0] == h, "C16/cross-process-differs", "a freshly spawned process serialises the archive differently from this process");
+    Ok(Meta::new(true).label(true, "cross-process"))
+}
+
+fn strategy(g: Gen) -> impl Strategy<Value = Case> {
+    let det = prop_oneof![
+        (any::<u16>(), any::<u16>()).prop_map(|(a, b)| Detour::Junk(a, b)),
+        (any::<u16>(), any::<u16>()).prop_map(|(a, b)| Detour::WrongFirst(a, b)),
+        (any::<u16>(), any::<u16>()).prop_map(|(a, b)| Detour::Alias(a, b)),
+        any::<u16>().prop_map(Detour::ReAdd),
+    ];
+    (logical::logical(g), any::<u32>(), proptest::collection::vec(det, 0..5), proptest::option::weighted(0.5, any::<u16>()), any::<bool>(), any::<bool>())
+        .prop_map(|(l, seed2, detours, reopen_at, reopen_async, asyncw)| Case { l, seed2, detours, reopen_at, reopen_async, asyncw })
+}
+
+pub fn run(ctx: &Ctx) {
+    ctx.rec.set_rule(
+        "logical archive recipes (as C01) x a second history reaching the same state: another insertion permutation, detours (junk id added and removed, wrong content \
+         first, the same content under another id that is removed again, remove and re-add), optional save+reopen in the middle (tiles reader-backed on one side only) x 4 \
+         internal compressions x sync / async writer (each against itself); the same history twice; rewrite of a just-read archive; large archives with leaf spill; and \
+         cross-process: the recipe is serialised by two freshly spawned `vcheck emit` processes. Oracle: byte equality. Non-trivial: >= 3 tiles with a duplicated content and \
+         histories that differ in more than order, or a cross-process case; distinct by digest.",
+    );
+    let g = Gen { max_tiles: ctx.tier.pick(200, 600), allow_big: false, allow_adv: false, full_floats: !ctx.excluded("C16/rewrite-differs/full-float") };
+    run_proptest(ctx, "history-pairs", PtCfg::new(ctx.lanes, ctx.tier.pick(1200, 10000)), || strategy(g), check);
+    let big: Vec<Case> = (0..ctx.tier.pick(4, 16))
+        .map(|i| Case { l: logical::large(18_000 + 1500 * i, 5000 + i as u64, 1 + (i % 4) as u8), seed2: 99 + i as u32, detours: vec![Detour::Junk(3, 4), Detour::Alias(9, 9), Detour::ReAdd(500)], reopen_at: if i % 2 == 0 { Some(30000) } else { None }, reopen_async: false, asyncw: i % 3 == 2 })
+        .collect();
+    run_list(ctx, "history-pairs-large", &big, check);
+    // cross-process
+    let n = ctx.tier.pick(24, 200);
+    let xs: Vec<XCase> = (0..n)
+        .map(|i| {
+            let mut l = logical::large(30 + 17 * i, ctx.seed.wrapping_mul(31) + i as u64, 1 + (i % 4) as u8);
+            // duplicates and a shuffled insertion order
+            for (k, t) in l.tiles.iter_mut().enumerate() {
+                t.1 = ((k % 5) * 9000) as u16;
+            }
+            XCase { l, asyncw: i % 2 == 1 }
+        })
+        .collect();
+    let idx = std::sync::atomic::AtomicUsize::new(0);
+    run_list(ctx, "cross-process", &xs, |c| check_cross(ctx, c, idx.fetch_add(1, std::sync::atomic::Ordering::Relaxed)));
+    for c in ["reopen-in-between", "detours", "dup-content", "writer-async", "cross-process", "leaf-spill"] {
+        ctx.rec.floor(c, 4);
+    }
+}
+
+pub fn replay(sub: &str, case: &Value) -> Option<CaseResult> {
+    match sub {
+        "history-pairs" | "history-pairs-large" => Some(check(&super::de(case)?)),
+        "cross-process" => {
+            let c: XCase = super::de(case)?;
+            let a = super::c01::write_logical(&c.l, c.asyncw).ok()?;
+            let b = super::c01::write_logical(&c.l, c.asyncw).ok()?;
+            Some(if a == b { Ok(Meta::new(true)) } else { Err(Fail::new("C16/same-history-differs", "in-process repeat differs")) })
+        }
+        _ => None,
+    }
 }
